@@ -264,6 +264,61 @@ fn directed_cold_spill(rt: &tokio::runtime::Runtime, n: u32, staged: bool) -> u6
     2
 }
 
+/// directed race ("reads racing with flushes / removes"): a cache-miss load of key k has read the committed value from the
+/// store but has not installed it yet when `remove(k)` is issued; every read issued AFTER the remove must see the absence
+fn directed_load_races_remove(rt: &tokio::runtime::Runtime, dynamic: bool) -> u64 {
+    let db = MockDb::default();
+    {
+        let engine = DbBacked::new(db.clone(), Configuration::builder().cache_capacity(8).serialization_workers(1).build());
+        let manager = engine.new_write_manager();
+        let mut b0 = manager.new_write_batch();
+        if dynamic { let m = engine.new_dynamic_map::<DynCol>(); rt.block_on(m.insert(9, 10u64, &mut b0)); manager.submit_write_batch(b0); drop(m); }
+        else { let m = engine.new_single_map::<OneCol, u64>(); rt.block_on(m.insert(9, 10u64, &mut b0)); manager.submit_write_batch(b0); drop(m); }
+        drop(manager);
+    }
+    let engine = DbBacked::new(db.clone(), Configuration::builder().cache_capacity(8).serialization_workers(1).build());
+    let manager = engine.new_write_manager();
+    let gate_key = if dynamic { wide_key::<DynCol, u64>(&9) } else { wide_key::<OneCol, u64>(&9) };
+    *db.0.read_gate.lock().unwrap() = Some(gate_key);
+    let wait_reached = || { let t0 = std::time::Instant::now(); while !db.0.gate_reached.load(std::sync::atomic::Ordering::SeqCst) && t0.elapsed() < std::time::Duration::from_secs(3) { std::thread::yield_now(); } };
+    let mut b1 = manager.new_write_batch();
+    let (after, later) = if dynamic {
+        let m = Arc::new(engine.new_dynamic_map::<DynCol>());
+        let m2 = m.clone();
+        let t = std::thread::spawn(move || { let rt2 = tokio::runtime::Builder::new_current_thread().build().unwrap(); rt2.block_on(m2.get::<u64>(&9)) });
+        wait_reached();
+        *db.0.read_gate.lock().unwrap() = None;
+        rt.block_on(m.remove::<u64>(&9, &mut b1));
+        db.0.gate_release.store(true, std::sync::atomic::Ordering::SeqCst);
+        let _raced = t.join().unwrap();
+        let after = rt.block_on(m.get::<u64>(&9));
+        manager.submit_write_batch(b1);
+        drop(manager);
+        let later = rt.block_on(m.get::<u64>(&9));
+        (after, later)
+    } else {
+        let m = Arc::new(engine.new_single_map::<OneCol, u64>());
+        let m2 = m.clone();
+        let t = std::thread::spawn(move || { let rt2 = tokio::runtime::Builder::new_current_thread().build().unwrap(); rt2.block_on(m2.get(&9)) });
+        wait_reached();
+        *db.0.read_gate.lock().unwrap() = None;
+        rt.block_on(m.remove(&9, &mut b1));
+        db.0.gate_release.store(true, std::sync::atomic::Ordering::SeqCst);
+        let _raced = t.join().unwrap();
+        let after = rt.block_on(m.get(&9));
+        manager.submit_write_batch(b1);
+        drop(manager);
+        let later = rt.block_on(m.get(&9));
+        (after, later)
+    };
+    eprintln!("LAST-HISTORY directed load races remove dynamic={dynamic}");
+    let which = if dynamic { "multi-type map" } else { "single-value map" };
+    let desc = format!("{which}: store holds 9 -> 10; cold cache; get(9) has read the store but not installed the value yet; remove(9) issued; the load completes");
+    if after.is_some() { report_found("a cached map read returns a value that was removed before the read", &format!("{desc}; get(9)"), &format!("{after:?}"), "None"); }
+    if later.is_some() { report_found("a cached map read returns a value that was removed before the read", &format!("{desc}; batch committed; get(9)"), &format!("{later:?}"), "None"); }
+    2
+}
+
 fn main() {
     let seed = seed_from_args();
     let mut rng = Rng(seed.wrapping_mul(0x9E3779B97F4A7C15) ^ 0xC09);
@@ -272,6 +327,8 @@ fn main() {
     n += directed_w1(&rt);
     n += directed_w2(&rt);
     for v in 0..3 { n += directed_older_committed(&rt, v); }
+    n += directed_load_races_remove(&rt, false);
+    n += directed_load_races_remove(&rt, true);
     for members in [3u32, 1023, 1024, 1025, 1026, 1100, 2100] {
         n += directed_cold_spill(&rt, members, false);
         n += directed_cold_spill(&rt, members, true);
